@@ -219,5 +219,96 @@ theorem attrAllLow_eq : ∀ (fuel : Nat) (inner : Sl),
       rw [ih inner']
       rfl
 
+/-! ### `Unquote::to_cow` -/
+
+theorem findByte_isSome (ch : Char) (l : List Char) : (findByte ch l).isSome = l.contains ch := by
+  induction l with
+  | nil => rfl
+  | cons c cs ih =>
+    by_cases h : c = ch
+    · subst h
+      simp only [findByte, ↓reduceIte, Option.isSome_some, List.contains_cons, BEq.rfl, Bool.true_or]
+    · have h' : (ch == c) = false := by
+        rw [beq_eq_false_iff_ne]; exact fun e => h e.symm
+      simp only [findByte, h, ↓reduceIte, Option.isSome_map, ih, List.contains_cons, h', Bool.false_or]
+
+theorem findByte_takeWhile (ch : Char) : ∀ (l : List Char),
+    (∀ e, findByte ch l = some e → e = blen (l.takeWhile (fun x => decide (x ≠ ch)))) ∧
+    (findByte ch l = none → l.takeWhile (fun x => decide (x ≠ ch)) = l) := by
+  intro l
+  induction l with
+  | nil => exact ⟨by intro e h; simp [findByte] at h, by intro _; rfl⟩
+  | cons c cs ih =>
+    by_cases h : c = ch
+    · subst h
+      have ht : List.takeWhile (fun x => decide (x ≠ c)) (c :: cs) = [] := by
+        rw [List.takeWhile_cons]; simp
+      refine ⟨?_, by intro hn; simp [findByte] at hn⟩
+      intro e he
+      simp only [findByte, ↓reduceIte, Option.some.injEq] at he
+      rw [ht, ← he]; rfl
+    · have ht : List.takeWhile (fun x => decide (x ≠ ch)) (c :: cs) =
+          c :: List.takeWhile (fun x => decide (x ≠ ch)) cs := by
+        rw [List.takeWhile_cons]; simp [h]
+      constructor
+      · intro e he
+        simp only [findByte, h, ↓reduceIte] at he
+        cases hf : findByte ch cs with
+        | none => rw [hf] at he; simp at he
+        | some e' =>
+          rw [hf] at he
+          simp only [Option.map_some, Option.some.injEq] at he
+          rw [ht, ← he, ih.1 e' hf]
+          simp only [blen]
+          omega
+      · intro hn
+        simp only [findByte, h, ↓reduceIte, Option.map_eq_none_iff] at hn
+        rw [ht, ih.2 hn]
+
+theorem sliceTo_takeWhile (p : Char → Bool) (l : List Char) :
+    sliceTo l (blen (l.takeWhile p)) = .ok (l.takeWhile p) := by
+  have := sliceTo_append (l.takeWhile p) (l.dropWhile p)
+  rwa [List.takeWhile_append_dropWhile] at this
+
+theorem cut_at_quote (b : List Char) :
+    (match findByte '"' b with
+      | some e => sliceTo b e
+      | none => Res.ok b) = .ok (b.takeWhile (fun x => decide (x ≠ '"'))) := by
+  obtain ⟨h1, h2⟩ := findByte_takeWhile '"' b
+  cases hf : findByte '"' b with
+  | none => simp only; rw [h2 hf]
+  | some e => simp only; rw [h1 e hf]; exact sliceTo_takeWhile _ b
+
+/-- `to_cow()`, low level = high level, in every state of the iterator and for every remaining string -/
+theorem toCowLow_eq (u : Uq) : toCowLow u = .ok u.toCow := by
+  unfold toCowLow Uq.toCow
+  by_cases hq : u.isQuoted = true
+  · rw [if_pos hq, if_pos hq, findByte_isSome]
+    by_cases hb : u.inner.contains '\\' = true
+    · rw [if_pos hb, if_pos hb]
+    · rw [if_neg hb, if_neg hb]
+      cases hs : u.state with
+      | notStarted =>
+        -- quoted and not started: the string starts with the opening quote (one byte)
+        have hstart : ∃ cs, u.inner = '"' :: cs := by
+          unfold Uq.isQuoted at hq
+          rw [hs] at hq
+          change Link.isQuoted u.inner = true at hq
+          unfold Link.isQuoted at hq
+          split at hq
+          · rename_i cs hi; exact ⟨cs, hi⟩
+          · simp at hq
+        obtain ⟨cs, hcs⟩ := hstart
+        rw [hcs]
+        have h1 : sliceFrom ('"' :: cs) 1 = .ok cs := by
+          simp only [sliceFrom]
+          rw [if_neg (by omega), if_pos (by decide)]
+          exact sliceFrom_zero cs
+        simp only [h1, List.drop_succ_cons, List.drop_zero]
+        exact cut_at_quote cs
+      | notQuoted => exact cut_at_quote u.inner
+      | quoted => exact cut_at_quote u.inner
+  · rw [if_neg hq, if_neg hq]
+
 end LinkLow
 end CoapLite
